@@ -232,7 +232,7 @@ Fixpoint gettsecidx_from (nocase : bool) (vals : list value) (title : str) (i : 
   | VSec (Some s) :: r =>
       match c_title s with
       | None => None
-      | Some t => if name_eqb nocase title t then Some i else gettsecidx_from nocase r title (S i)
+      | Some t => if name_eqb (nocase || cflag s CFGF_NOCASE) title t then Some i else gettsecidx_from nocase r title (S i)
       end
   | _ :: _ => None
   end.
